@@ -164,7 +164,7 @@ def wire_model(wb, model=None):
             for a in row:
                 if a not in known:
                     known.add(a)
-                    cells.append(f'{cp(a)}~c~T:')       # build_ranges creates XLCell(addr, '')
+                    cells.append(f'{cp(a)}~c~Z')        # build_ranges creates XLCell(addr, None)
     names = [f'{cp(n)}~{cp(a)}' for n, a in wb.get('names', {}).items()]
     return '|'.join(cells), '|'.join(rw), '|'.join(names)
 
